@@ -95,6 +95,19 @@ func emitTempl(p, v string) (out string, panicked bool) {
 	return string(templ.SanitizeCSS(p, v)), false
 }
 
+// namedCSSValue is an application-defined string type: templ.SanitizeCSS is
+// generic over ~string, and only templ.SafeCSSProperty is documented as trusted.
+type namedCSSValue string
+
+func emitTemplNamed(p, v string) (out string, panicked bool) {
+	defer func() {
+		if r := recover(); r != nil {
+			out, panicked = fmt.Sprint(r), true
+		}
+	}()
+	return string(templ.SanitizeCSS(p, namedCSSValue(v))), false
+}
+
 // verdictSanitiser applies the in-proc monitor to one (property, value).
 func verdictSanitiser(p, v string) (cl Clause, evals int) {
 	a, pa := emitSafehtml(p, v)
@@ -107,6 +120,13 @@ func verdictSanitiser(p, v string) (cl Clause, evals int) {
 	if b != a {
 		cl |= checkMemo(b, p)
 		evals = 2
+	}
+	// the same value as a named string type must be sanitised like a plain string
+	if n, pn := emitTemplNamed(p, v); pn {
+		cl |= Rule | Declaration
+	} else if n != a {
+		cl |= checkMemo(n, p)
+		evals++
 	}
 	return cl, evals
 }
